@@ -1,6 +1,7 @@
 package checks
 
 import (
+	"fmt"
 	"testing"
 
 	"pgregory.net/rapid"
@@ -22,7 +23,23 @@ func genTV(cfg core.GenCfg) func(t *rapid.T) TV {
 		} else {
 			s = core.GenStruct(t, cfg)
 		}
-		return TV{S: s, V: core.GenStructVal(t, cfg, s)}
+		v := core.GenStructVal(t, cfg, s)
+		// now and then wrap the value in one or two single-field by-value structs, or pick a struct whose
+		// only field is a pointer / map: Go stores such "pointer-shaped" structs directly in the interface
+		// word, which matters for everything that takes the argument apart with unsafe
+		if rapid.IntRange(0, 11).Draw(t, "wrap1") == 0 {
+			n := rapid.IntRange(1, 2).Draw(t, "nwrap1")
+			for i := 0; i < n; i++ {
+				ft := &core.TypeSpec{Kind: core.KStruct, Struct: s, Ptr: i == 0 && rapid.Bool().Draw(t, "wrapptr")}
+				if s.Name != "" {
+					ft = &core.TypeSpec{Kind: core.KStruct, Ref: s.Name, Ptr: ft.Ptr}
+				}
+				ws := &core.StructSpec{Fields: []*core.FieldSpec{{Name: fmt.Sprintf("Only%d", i), ID: uint16(1 + i), Type: ft}}}
+				wv := &core.SVal{F: map[uint16]core.Val{uint16(1 + i): {St: v}}, UnkNil: true}
+				s, v = ws, wv
+			}
+		}
+		return TV{S: s, V: v}
 	}
 }
 
